@@ -32,6 +32,8 @@ def _required_args_error(x): return RequiredArgsError(x, 'b')
 def _huge_error(x): return InjectedError((x, 'x' * 200_000))
 
 
+FALSY = [None, 0, '', ()]      # item values a stream may legitimately carry and that code is tempted to read as 'nothing'
+
 EXC_KINDS = {'custom': InjectedError, 'ValueError': ValueError, 'AssertionError': AssertionError, 'EOFError': EOFError,
              'BrokenPipeError': BrokenPipeError, 'TypeError': TypeError, 'KeyError': KeyError,
              'cannot-unpickle': _required_args_error, 'huge': _huge_error}
@@ -53,6 +55,7 @@ class TenTimes:
         except Exception:
             pass
         if x in self.faults: raise EXC_KINDS[self.exc](x)
+        if self.fan == 'echo': return (pid, 'echo:' + repr(x))      # items that are not numbers (None, '', () ...)
         if self.fan == 'two': return iter([(pid, 10 * x), (pid, 10 * x + 1)])
         if self.fan == 'skip1' and x == 1: return iter([])
         if self.fan == 'none1' and x == 1: return None
